@@ -41,9 +41,10 @@ type Point struct {
 
 // Decision records one map-order decision taken inside an op.
 type Decision struct {
-	Site int    `json:"site"`
-	N    int    `json:"n"`
-	Code uint64 `json:"code"`
+	Site int     `json:"site"`
+	N    int     `json:"n"`
+	Code uint64  `json:"code"`
+	Map  uintptr `json:"-"` // identity of the map whose order was decided
 }
 
 // OpCtx carries everything an operation may consume nondeterministically. It is
